@@ -12,10 +12,24 @@
 // Beyond the design entry: "isolated metadata" placements give every leaf a database of its own inside the engine (own
 // metric/field/tag metadata, like a production storage node), see iso.go.
 //
+// Beyond the design entry as well: a directed "infinitely fast transport" scenario (directed.go: every response is handled
+// before the root's request pipeline completes), the observation of what the leaves send to several compute targets
+// (run.go checkSplit), retries that separate non-repeating differences (a race inside one leaf, a lost error) from
+// differences caused by the layout.
+//
+// Files: dataset.go (data sets), query.go (statements, order by / limit oracle), layout.go (partitions, delivery orders,
+// plan recording), run.go (child: reference, layouts, judging, classification), iso.go, directed.go, repro_test.go
+// (minimal reproductions of the findings, C12_REPRO=1), suggested-fixes.patch (validated against the engine).
+//
 // Debugging one case by hand:
 //
 //	LOG_LEVEL=fatal TZ=UTC VERIF_SEED=1 C12_BASE=<unix ms of the base hour> bin/c12 case <data set> 1 <dir> quick <dir>/base.json
-//	... bin/c12 case <data set> <shards> <dir2> quick <dir>/base.json      (C12_ONLY_LAYOUT=<substring>, C12_NO_ISOLATED=1, C12_VERBOSE=1)
+//	... bin/c12 case <data set> <shards> <dir2> quick <dir>/base.json
+//
+// C12_ONLY_LAYOUT=<substring of the layout description>, C12_NO_ISOLATED=1, C12_VERBOSE=1 (prints the child's result);
+// C12_EXTRA_SQL="sql;sql" runs statements after loading and prints leaf answers and results, on the layout
+// C12_EXTRA_LAYOUT="0,1|2,3" (default: all shards on one leaf), C12_EXTRA_INTER=<n>, C12_EXTRA_PERM="1,0".
+// Parent: C12_DATASETS=<n>, C12_FIRST=<index of the first data set>.
 package main
 
 import (
@@ -63,7 +77,8 @@ func main() {
 		"every layout. Layouts: 1,2,3,4,8 shards routed by the real hash; all shards on one leaf, split in two, one and rest, three leaves, four " +
 		"leaves, one shard per leaf, a leaf made of the shards without series of the metric, a leaf made of the shards without data; 0, 1 or 2 " +
 		"intermediate brokers; every leaf on the shared database or on a database of its own (isolated metadata). Delivery: every permutation " +
-		"for <= 4 leaves (each response handled completely before the next is delivered), seeded random permutations with 0-2ms delays above. " +
+		"for <= 4 leaves (each response handled completely before the next is delivered), seeded random permutations with 0-2ms delays above; " +
+		"plus, for 2 shards, a transport that hands every response to the root before SendRequest returns. " +
 		"Statements: field lists, functions, arithmetic, quantile, tag conditions, group by, order by / limit, select *, intervals, ranges " +
 		"cutting families, unknown metric/field/tag key. Non-trivial = the reference result is non-empty, the layout has more than one shard " +
 		"or leaf and the run equals the reference; distinct by (data set, shard count, layout, delivery order, statement).")
@@ -81,7 +96,7 @@ func main() {
 	c.Assume("race detector reports do not decide C12; no race variant is built")
 
 	base := baseTime()
-	nData := c.Pick(16, 320)
+	nData := c.Pick(16, 200)
 	if v := os.Getenv("C12_DATASETS"); v != "" {
 		nData, _ = strconv.Atoi(v)
 	}
